@@ -664,6 +664,13 @@ def _asarray(ex, args, kwargs, fr):
     return _array(ex, args, kwargs, fr)
 
 
+@npfn("numpy.ascontiguousarray")
+def _ascontiguousarray(ex, args, kwargs, fr):
+    """np.ascontiguousarray(a[, dtype]): the arrays of the model are C-contiguous (no strided views), so this is np.asarray — in
+    particular the SAME object for an array of the requested type."""
+    return _asarray(ex, args, kwargs, fr)
+
+
 @npfn("numpy.array")
 def _array(ex, args, kwargs, fr):
     v = args[0]
